@@ -89,6 +89,12 @@ def stream_entry_events(prog):
         if step[0] == "addr":
             proc.gcodeHandlers.state.addRegion(rig.make_region(step[1]))
             continue
+        if step[0] == "updr":
+            proc.gcodeHandlers.state.replaceRegion(rig.make_region(step[1]), False)
+            continue
+        if step[0] == "delr":
+            proc.gcodeHandlers.state.deleteRegion(step[1])
+            continue
         line = (step[1] if step[0] == "g" else "@" + step[1] + " " + step[2]) + "\n"
         event = {"ev": "sp", "raised": "", "okshape": True, "src": line}
         try:
